@@ -97,10 +97,20 @@ func C10(c *Ctx) {
 			}
 			inputs[gi] = ins
 			var cs []*mon.Case
+			alpha := g.Alphabet()
 			for ii, in := range ins {
 				cs = append(cs, &mon.Case{Input: in, MaxExpr: 400000, MaxEvents: 400})
 				if ii%3 == 0 {
 					cs = append(cs, &mon.Case{Input: in, NoRecover: true, MaxExpr: 400000, MaxEvents: 400})
+				}
+				if ii%4 == 1 && len(in) > 0 {
+					// invalid UTF-8 inside the input (also right after a proper prefix of a literal), both modes
+					bad := gast.Mutate(rng, in, alpha, true)
+					cut := rng.Intn(len(in) + 1)
+					bad2 := append(append(append([]byte{}, in[:cut]...), gast.InvalidSeqs[rng.Intn(len(gast.InvalidSeqs))]...), in[cut:]...)
+					for _, b := range [][]byte{bad, bad2} {
+						cs = append(cs, &mon.Case{Input: b, MaxExpr: 400000, MaxEvents: 400}, &mon.Case{Input: b, AllowInvalid: true, MaxExpr: 400000, MaxEvents: 400})
+					}
 				}
 			}
 			return cs
